@@ -241,53 +241,10 @@ theorem firstRoot_mem : ∀ (ids pids : List Int) (root : Int), firstRoot ids pi
 
 /-! ### the `dict(zip(old_ids, range(n)))` index -/
 
-theorem get?_foldl_set_not_mem : ∀ (zs : List (Int × Int)) (d : Dict Int Int) (k : Int), k ∉ zs.map (·.1) →
-    Dict.get? (zs.foldl (fun d p => Dict.set d p.1 p.2) d) k = Dict.get? d k := by
-  intro zs
-  induction zs with
-  | nil => intro d k _; rfl
-  | cons z zs ih =>
-    intro d k hk
-    simp only [List.map_cons, List.mem_cons, not_or] at hk
-    simp only [List.foldl_cons]
-    rw [ih _ k hk.2, Dict.get?_set, if_neg hk.1]
-
-theorem get?_foldl_set_zip : ∀ (ks vs : List Int) (d : Dict Int Int), ks.Nodup → ks.length ≤ vs.length → ∀ x ∈ ks,
-    Dict.get? ((List.zip ks vs).foldl (fun d p => Dict.set d p.1 p.2) d) x = vs[ks.idxOf x]? := by
-  intro ks
-  induction ks with
-  | nil => intro vs d _ _ x hx; simp at hx
-  | cons k ks ih =>
-    intro vs d hnd hlen x hx
-    cases vs with
-    | nil => simp at hlen
-    | cons w ws =>
-      rw [List.nodup_cons] at hnd
-      simp only [List.zip_cons_cons, List.foldl_cons]
-      by_cases hxk : x = k
-      · subst hxk
-        have : x ∉ (List.zip ks ws).map (·.1) := by
-          intro hm
-          obtain ⟨z, hz, rfl⟩ := List.mem_map.1 hm
-          exact hnd.1 (List.of_mem_zip hz).1
-        rw [get?_foldl_set_not_mem _ _ _ this, Dict.get?_set]
-        simp
-      · have hxs : x ∈ ks := by
-          simp only [List.mem_cons] at hx
-          rcases hx with h | h
-          · exact absurd h hxk
-          · exact h
-        rw [ih ws _ hnd.2 (by simpa using hlen) x hxs]
-        have : (k :: ks).idxOf x = ks.idxOf x + 1 := by
-          have hkx : (k == x) = false := by simp; exact fun c => hxk c.symm
-          simp [List.idxOf_cons, hkx]
-        rw [this]
-        simp
-
 theorem get?_ofZip_range (ids : List Int) (hnd : ids.Nodup) (x : Int) (hx : x ∈ ids) :
     Dict.get? (Dict.ofZip ids (range (len ids))) x = some ((indexOf ids x : Nat) : Int) := by
   unfold Dict.ofZip
-  rw [get?_foldl_set_zip ids _ [] hnd (by simp) x hx]
+  rw [Dict.get?_foldl_set_zip ids _ [] hnd (by simp) x hx]
   have hlt : ids.idxOf x < ids.length := List.idxOf_lt_length_of_mem hx
   simp [indexOf, hlt]
 
